@@ -27,7 +27,7 @@ import (
 // every healthy channel.
 func TestC13DyingChannelIsolation(t *testing.T) {
 	rec := evid.New(t, "C13", "3..6 channels on custom transports; the consumer is paused, then the transport of 1..2 channels fails (read error, optionally with a blocked writer or a failing write as well) so that their close events stay undelivered; 5..40 items are written to all channels / all but one while the failed channels are dying; every healthy channel must receive every item addressed to it, in order, within the bound, every Write call returns promptly, and once the consumer resumes each failed channel is reported by a close event carrying an error; non-trivial = always (writes land in the dying window); distinct by hash of the parameters")
-	rec.Require("two-dying-channels", "dying-channel-with-blocked-writer", "writes-all-and-except")
+	rec.Require("two-dying-channels", "dying-channel-with-blocked-writer", "writes-all-and-except", "application-away-for-longer-than-the-node's-timeouts")
 	evid.Check(t, rec, evid.N(150, 500), func(t *rapid.T) {
 		drawNodeInit(t)
 		nch := rapid.IntRange(3, 6).Draw(t, "nch")
@@ -37,13 +37,19 @@ func TestC13DyingChannelIsolation(t *testing.T) {
 		warm := rapid.IntRange(0, 8).Draw(t, "warmup")
 		nw := rapid.IntRange(5, 40).Draw(t, "writes")
 		ops := rapid.SliceOfN(rapid.IntRange(-1, nch-1), nw, nw).Draw(t, "except") // -1: to all; c: all but channel c
-		desc := fmt.Sprintf("channels=%d failing=%v writerOfFailingBlocked=%v warmup=%d writes(all=-1/except c)=%v", nch, victims, gateVictim, warm, ops)
+		nodeTO := time.Duration(rapid.SampledFrom([]int{0, 0, 10, 25}).Draw(t, "node_timeouts_ms")) * time.Millisecond
+		desc := fmt.Sprintf("channels=%d failing=%v writerOfFailingBlocked=%v warmup=%d writes(all=-1/except c)=%v nodeTimeouts=%v (0 = defaults)", nch, victims, gateVictim, warm, ops, nodeTO)
+		dyingNodeTimeouts = nodeTO
 		err := watchdog(scenarioLimit, func() error { return runC13Dying(nch, victims, gateVictim, warm, ops) })
+		dyingNodeTimeouts = 0
 		if err != nil {
 			evid.ReplayNote("C13", "TestC13DyingChannelIsolation", desc+"\n"+err.Error())
 			t.Fatalf("%s\n%v", desc, err)
 		}
 		cls := []string{"dying-window"}
+		if nodeTO > 0 {
+			cls = append(cls, "application-away-for-longer-than-the-node's-timeouts")
+		}
 		if nv == 2 {
 			cls = append(cls, "two-dying-channels")
 		}
@@ -73,6 +79,10 @@ func seqInts(n int) []int {
 	return out
 }
 
+// dyingNodeTimeouts, when positive, is what ReadTimeout, WriteTimeout and IdleTimeout of the next runC13Dying node are
+// set to; the application then stays away from its events for several times that long.
+var dyingNodeTimeouts time.Duration
+
 func runC13Dying(nch int, victims []int, gateVictim bool, warm int, ops []int) error {
 	pipes := make([]*sim.Pipe, nch)
 	var endpoints []gomavlib.EndpointConf
@@ -80,7 +90,9 @@ func runC13Dying(nch int, victims []int, gateVictim bool, warm int, ops []int) e
 		pipes[i] = sim.NewPipe()
 		endpoints = append(endpoints, gomavlib.EndpointCustom{ReadWriteCloser: pipes[i]})
 	}
-	n := &gomavlib.Node{Endpoints: endpoints, Dialect: ardupilotmega.Dialect, OutVersion: gomavlib.V2, OutSystemID: nodeSys, HeartbeatDisable: true}
+	n := &gomavlib.Node{Endpoints: endpoints, Dialect: ardupilotmega.Dialect, OutVersion: gomavlib.V2, OutSystemID: nodeSys, HeartbeatDisable: true,
+		ReadTimeout: dyingNodeTimeouts, WriteTimeout: dyingNodeTimeouts, IdleTimeout: dyingNodeTimeouts}
+	awayFor := 4 * dyingNodeTimeouts
 	if err := initNode(&n); err != nil {
 		return fmt.Errorf("BROKEN: %v", err)
 	}
@@ -187,7 +199,9 @@ func runC13Dying(nch int, victims []int, gateVictim bool, warm int, ops []int) e
 			return fmt.Errorf("healthy channel %d: wire carries items %v, want %v", i, got, exp)
 		}
 	}
-	// the consumer resumes: every failed channel is reported
+	// the application stays away for a while longer (several times any timeout the node has been given), then the
+	// consumer resumes: every failed channel is reported
+	time.Sleep(awayFor)
 	for _, v := range victims {
 		pipes[v].ClearReadError()
 		pipes[v].UnblockWrites()
